@@ -416,8 +416,11 @@ pub fn validate_spans(spans: &mut [DataSpan]) -> Result<()> {
         return Ok(());
     }
 
-    // Sort by offset
-    spans.sort_by_key(|s| s.offset);
+    // Sort by offset, and at equal offsets by length: a zero-length span that
+    // starts where a live span starts does not overlap it and must come
+    // first, or the adjacent-pair check below would report an overlap
+    // depending on the input order.
+    spans.sort_by_key(|s| (s.offset, s.length));
 
     // Check adjacent pairs for overlap
     for i in 0..spans.len() - 1 {
